@@ -463,6 +463,23 @@ func ParseFile(path string, pkgPath string) (*File, error) {
 			sf.Pkg = f.Pkg
 			f.Specs = append(f.Specs, sf)
 			cur, curCS = nil, nil
+		case "represents":
+			// represents (*impl) Iface.$ghost = expr
+			eq := strings.Index(rest, "=")
+			if eq < 0 {
+				return nil, fail(fmt.Errorf("represents (*T) I.$g = expr"))
+			}
+			head := strings.Fields(strings.TrimSpace(rest[:eq]))
+			if len(head) != 2 || !strings.Contains(head[1], ".$") {
+				return nil, fail(fmt.Errorf("represents (*T) I.$g = expr"))
+			}
+			ex, err := ParseExpr(rest[eq+1:])
+			if err != nil {
+				return nil, fail(err)
+			}
+			di := strings.Index(head[1], ".$")
+			f.Reps = append(f.Reps, &Represents{Impl: head[0], Iface: head[1][:di], Ghost: head[1][di+1:], Expr: ex, Text: strings.TrimSpace(rest), Pos: ln.pos, Pkg: f.Pkg})
+			cur, curCS = nil, nil
 		case "ghost":
 			g, err := parseGhost(rest)
 			if err != nil {
@@ -704,7 +721,7 @@ var keywords = map[string]bool{
 	"spec": true, "ghost": true, "axiom": true, "lemma": true, "event": true, "func": true,
 	"requires": true, "ensures": true, "modifies": true, "pure": true, "noeffect": true, "trusted": true,
 	"let": true, "loop": true, "callsite": true, "assert": true, "import": true, "package": true,
-	"noinline": true, "inline": true, "props": true, "fresh": true, "opt": true, "stablegetters": true, "dyncall": true, "silent": true, "assumes": true,
+	"noinline": true, "inline": true, "props": true, "fresh": true, "opt": true, "stablegetters": true, "represents": true, "dyncall": true, "silent": true, "assumes": true,
 }
 
 func firstWord(s string) string {
